@@ -219,7 +219,9 @@ func vxHitStep(withOrigin bool, kinds []int) {
 				vxAssert(ok, "C11/age-not-a-number")
 				{
 					za := vxZMulK(vxZOf(a), vxSecond)
-					lo := vxZSub(ageLo, vxZOf(2*vxSecond))
+					// the age at the moment the response is handed over (after a failed
+					// validation that is the last clock reading, not the first)
+					lo := vxZSub(ageLoLast, vxZOf(2*vxSecond))
 					hi := vxZAdd(ageHiLast, vxZOf(2*vxSecond))
 					// a saturated age may be reported as any value >= 2^31 s
 					big := vxZOf(vxTwo31 * vxSecond)
